@@ -122,14 +122,18 @@ theorem printed_form_lexes_partial (cfg : Config) (hc : cfg ∈ Gen.AsmAll.all)
 
 /-! non-vacuity: a concrete avr instruction with a two-token register name and a negative immediate -/
 
+def regIdx (cfg : Config) (n : String) : Nat := cfg.regClasses.findIdx (·.name == n)
+
 def demoLeaves : List Leaf :=
-  [.word "ldd".toList, .ws " ".toList, .reg "AvrRegister", .glyph ',', .ws " ".toList, .reg "AvrYRegister",
-   .glyph '+', .int]
+  [.word "ldd".toList, .ws " ".toList, .reg (regIdx Gen.Asm_avr.config "AvrRegister"), .glyph ',', .ws " ".toList,
+   .reg (regIdx Gen.Asm_avr.config "AvrYRegister"), .glyph '+', .int]
 def demoVals : List Val := [.reg ⟨"r5", [.word "r5"]⟩, .reg ⟨"Y", [.word "Y"]⟩, .int (-3)]
 
 example : wellSpaced Gen.Asm_avr.config demoLeaves = true := by decide +kernel
 example : Fits Gen.Asm_avr.config demoLeaves demoVals :=
-  ⟨⟨_, rfl, by decide⟩, ⟨_, rfl, by decide⟩, rfl⟩
+  ⟨⟨(Gen.Asm_avr.config.regClasses[regIdx Gen.Asm_avr.config "AvrRegister"]?).getD default, by decide +kernel, by decide +kernel⟩,
+   ⟨(Gen.Asm_avr.config.regClasses[regIdx Gen.Asm_avr.config "AvrYRegister"]?).getD default, by decide +kernel, by decide +kernel⟩,
+   rfl⟩
 example : String.ofList (render demoLeaves demoVals) = "ldd r5, Y+-3" := by decide +kernel
 example : tokens demoLeaves demoVals =
     [.id "ldd".toList, .id "r5".toList, .glyph ',', .id "Y".toList, .glyph '+', .glyph '-', .num 3] := by
@@ -138,7 +142,8 @@ example : tokens demoLeaves demoVals =
 /-! negation witnesses for the spacing condition: the syntaxes ppci had before the fixes
     (`sdiv` + register, thumb `bkpt` + immediate) are not well spaced and really lex differently -/
 
-example : wellSpaced Gen.Asm_arm.config [.word "sdiv".toList, .reg "ArmRegister"] = false := by decide +kernel
+example : wellSpaced Gen.Asm_arm.config [.word "sdiv".toList, .reg (regIdx Gen.Asm_arm.config "ArmRegister")] = false := by
+  decide +kernel
 example : lex "sdivR0".toList = some [.id "sdivR0".toList] := by decide +kernel
 example : wellSpaced Gen.Asm_thumb.config [.word "bkpt".toList, .int] = false := by decide +kernel
 example : lex "bkpt2".toList = some [.id "bkpt2".toList] := by decide +kernel
@@ -195,21 +200,25 @@ def unambiguous_full (cfg : Config) : Prop :=
   ∀ s ∈ cfg.syntaxes, s.isInstr = true → ∀ ls ∈ expand cfg.syntaxes expandFuel s.elems, supported ls = true →
     ∀ vs, Fits cfg ls vs → (parses cfg.grammar (fuelOf cfg) "instruction" (typs cfg ls vs)).length ≤ 1
 
+/-- the x86_64 class `add reg64, rm64` (found by name so that the witness survives re-numbering) -/
+def addRR : SynDesc := (lookupName Gen.Asm_x86_64.config.syntaxes "add_ins#5").getD default
+/-- its flattening with a register as `rm` -/
+def addRRLeaves : List Leaf :=
+  [.word "add".toList, .ws " ".toList, .reg (regIdx Gen.Asm_x86_64.config "Register64"), .glyph ',', .ws " ".toList,
+   .reg (regIdx Gen.Asm_x86_64.config "Register64")]
+
 /-- x86_64 `add rax, rcx` has two derivations (`add rm, reg` with priority 0 and `add reg, rm` with priority 1,
     different opcodes 01/03): the reg,rm instance is assembled as the rm,reg instruction (open finding) -/
 theorem x86_64_unambiguous_full_false : ¬ unambiguous_full Gen.Asm_x86_64.config := by
   intro h
-  have hs : (⟨"add_ins#5", true, 1, [.word "add", .ws " ", .op "reg" (.reg "Register64"), .glyph ',', .ws " ",
-      .op "rm" (.cons ["RmMem", "RmMemDisp", "RmMemDisp2", "RmReg64", "RmRip", "RmAbsLabel", "RmAbs"])]⟩ : SynDesc)
-      ∈ Gen.Asm_x86_64.config.syntaxes := by decide +kernel
-  have := h _ hs rfl
-    [.word "add".toList, .ws " ".toList, .reg "Register64", .glyph ',', .ws " ".toList, .reg "Register64"]
-    (by decide +kernel) (by decide)
+  have := h addRR (by decide +kernel) (by decide +kernel) addRRLeaves (by decide +kernel) (by decide +kernel)
     [.reg ⟨"rax", [.word "rax"]⟩, .reg ⟨"rcx", [.word "rcx"]⟩]
-    ⟨⟨_, rfl, by decide⟩, ⟨_, rfl, by decide⟩, rfl⟩
+    ⟨⟨(Gen.Asm_x86_64.config.regClasses[regIdx Gen.Asm_x86_64.config "Register64"]?).getD default,
+        by decide +kernel, by decide +kernel⟩,
+     ⟨(Gen.Asm_x86_64.config.regClasses[regIdx Gen.Asm_x86_64.config "Register64"]?).getD default,
+        by decide +kernel, by decide +kernel⟩, rfl⟩
   have e : (parses Gen.Asm_x86_64.config.grammar (fuelOf Gen.Asm_x86_64.config) "instruction"
-      (typs Gen.Asm_x86_64.config
-        [.word "add".toList, .ws " ".toList, .reg "Register64", .glyph ',', .ws " ".toList, .reg "Register64"]
+      (typs Gen.Asm_x86_64.config addRRLeaves
         [.reg ⟨"rax", [.word "rax"]⟩, .reg ⟨"rcx", [.word "rcx"]⟩])).length = 2 := by decide +kernel
   omega
 
